@@ -52,6 +52,17 @@ def bootstrap(lane: str) -> None:
     import jax
 
     jax.config.update("jax_enable_x64", lane == "f64")
+    # Persistent XLA compilation cache: most of a scene's cost is compiling hundreds of tiny eager ops for a new
+    # grid shape. Keys are HLO-based, so edited fdtdx code simply misses; nothing depends on the cache existing.
+    if os.environ.get("VERIF_NO_JAXCACHE") != "1":
+        try:
+            cdir = os.environ.get("VERIF_JAXCACHE", os.path.join(VERIF_DIR, ".jaxcache"))
+            os.makedirs(cdir, exist_ok=True)
+            jax.config.update("jax_compilation_cache_dir", cdir)
+            jax.config.update("jax_persistent_cache_min_compile_time_secs", 0.0)
+            jax.config.update("jax_persistent_cache_min_entry_size_bytes", -1)
+        except Exception:
+            pass
     try:  # silence the library's own logger; failures are reported by the engine
         from loguru import logger
 
